@@ -250,41 +250,39 @@ Proof.
   apply shape_eqb_eq in E. rewrite E. now rewrite Z.eqb_refl.
 Qed.
 
-(* ---- linear indices: numpy wraps negative indices, so the statement holds for the indices k >= 0 ---- *)
-Definition linear_index_stmt : Prop := forall s k, guard_linear_index s k = decide (pre_linear_index s k).
-Theorem linear_index_refuted : ~ linear_index_stmt.
-Proof. intros H. specialize (H [2; 3] (-1)). vm_compute in H. discriminate. Qed.
-Theorem linear_index_partial s k : 0 <= k -> guard_linear_index s k = decide (pre_linear_index s k).
+(* ---- linear indices, over the GENERATED tt_ind2sub: -prod(shape) <= k < prod(shape) ---- *)
+Theorem linear_index_decides s k : guard_linear_index s k = decide (pre_linear_index s k).
 Proof.
-  intros Hk. apply decide_by. unfold guard_linear_index, pre_linear_index. okb. rewrite np_idx_ok_nonneg by assumption.
-  unfold in_range. destruct (Z.leb_spec (zprod s) k), (Z.leb_spec 0 k), (Z.ltb_spec k (zprod s)); cbn; try reflexivity; lia.
+  apply decide_by. unfold guard_linear_index, pre_linear_index. okb.
+  unfold tt_ind2sub. change (zlen [k] =? 0) with false. cbv iota zeta.
+  unfold np_wrap_neg, np_unravel_index. cbn [map mapM]. unfold np_unravel_row.
+  destruct (Z.ltb_spec k 0).
+  - destruct (Z.ltb_spec (k + zprod s) 0), (Z.leb_spec (zprod s) (k + zprod s)), (Z.leb_spec (zprod s) k),
+      (Z.leb_spec (- zprod s) k), (Z.ltb_spec k (zprod s)); cbn; try reflexivity; lia.
+  - destruct (Z.ltb_spec k 0); [lia|]. destruct (Z.leb_spec (zprod s) k), (Z.leb_spec (- zprod s) k), (Z.ltb_spec k (zprod s));
+      cbn; try reflexivity; lia.
 Qed.
 
-(* ---- tensor.scale: the factor's shape is compared with the sizes of the modes in ASCENDING order ---- *)
-Definition scale_stmt : Prop := forall s f d, guard_scale s f d = decide (pre_scale s f d).
-Theorem scale_refuted : ~ scale_stmt.
-Proof. intros H. specialize (H [2; 3; 4] [4; 2] [2; 0]). vm_compute in H. discriminate. Qed.
-Theorem scale_partial s f d : np_sort d = d -> guard_scale s f d = decide (pre_scale s f d).
+(* ---- tensor.scale: dims is a set of modes; the factor is compared with the sizes of the modes in ascending order ---- *)
+Theorem scale_decides s f d : guard_scale s f d = decide (pre_scale s f d).
 Proof.
-  intros Hs. unfold guard_scale, pre_scale. destruct (modes_ok (ndim s) d) eqn:Hm.
+  unfold guard_scale, pre_scale. destruct (modes_ok (ndim s) d) eqn:Hm.
   - apply modes_ok_spec in Hm as [Hr Hn]. rewrite (dimscheck_dims (ndim s) None d).
-    + rewrite Hs. cbn [andb]. destruct (shape_eqb f (pickz s d)); reflexivity.
+    + cbn [andb]. destruct (shape_eqb f (pickz s (np_sort d))); reflexivity.
     + repeat split; auto; apply Hr; auto.
   - now rewrite dimscheck_rejects_bad_modes.
 Qed.
 
 (* ---- ktensor.mttkrp / sumtensor.mttkrp ---- *)
-Lemma kw_chain_exact s n wc l : wc <> 1 -> (forall iu, In iu l -> cols (snd iu) <> 1) ->
-  is_ok (kw_chain s n wc l) =
-  forallb (fun iu => (fst iu =? n) || ((rows (snd iu) =? sz s (fst iu)) && (cols (snd iu) =? wc))) l.
+Lemma kw_chain_cols_eq s n wc l :
+  forallb (fun iu => (fst iu =? n) || (cols (snd iu) =? wc)) l = true ->
+  is_ok (kw_chain s n wc l) = forallb (fun iu => (fst iu =? n) || (rows (snd iu) =? sz s (fst iu))) l.
 Proof.
-  intros Hw. induction l as [|[i u] l IH]; intros Hc; [reflexivity|].
-  cbn [kw_chain forallb fst snd]. assert (Hu : cols u <> 1) by (apply (Hc (i, u)); now left).
-  assert (IH' := IH (fun iu H => Hc iu (or_intror H))).
-  destruct (i =? n); cbn [orb andb]; [exact IH'|].
-  destruct (rows u =? sz s i); cbn [negb andb]; [|reflexivity].
-  destruct (Z.eqb_spec wc 1); [contradiction|]. destruct (Z.eqb_spec (cols u) 1); [contradiction|].
-  rewrite !orb_false_r. rewrite (Z.eqb_sym (cols u) wc). destruct (wc =? cols u); cbn [negb andb]; [exact IH'|reflexivity].
+  induction l as [|[i u] l IH]; intros H; [reflexivity|].
+  cbn [kw_chain forallb fst snd] in *. apply andb_true_iff in H as [H1 H2].
+  destruct (i =? n); cbn [orb andb] in *; [now apply IH|].
+  apply Z.eqb_eq in H1. destruct (rows u =? sz s i); cbn [negb andb]; [|reflexivity].
+  rewrite H1, Z.eqb_refl. cbn [orb negb]. destruct (wc =? 1); now apply IH.
 Qed.
 
 Lemma kw_chain_accepts s n wc l :
@@ -313,37 +311,24 @@ Proof.
   apply nth_In. unfold zlen in H. lia.
 Qed.
 
-Definition ktensor_mttkrp_stmt : Prop := forall s us n, guard_ktensor_mttkrp s us n = decide (pre_mttkrp s us n).
-(* a matrix with a single column is stretched over the R columns of the others (C19-N09, open) *)
-Theorem ktensor_mttkrp_refuted : ~ ktensor_mttkrp_stmt.
-Proof. intros H. specialize (H [2; 2; 2] [(2, 2); (2, 2); (2, 1)] 0). vm_compute in H. discriminate. Qed.
+Ltac bsimpl := repeat (rewrite ?andb_false_r, ?andb_true_r, ?andb_false_l, ?andb_true_l).
 
-Theorem ktensor_mttkrp_partial s us n : forallb (fun u => negb (cols u =? 1)) us = true ->
-  guard_ktensor_mttkrp s us n = decide (pre_mttkrp s us n).
+(* C19-N09 repaired: the helper compares the column counts, so a single column is no longer stretched *)
+Theorem ktensor_mttkrp_decides s us n : guard_ktensor_mttkrp s us n = decide (pre_mttkrp s us n).
 Proof.
-  intros Hc. apply decide_by. unfold guard_ktensor_mttkrp, guard_mttkrp_factors, pre_mttkrp. okb.
-  fold (mttkrp_R us n).
-  destruct (Z.eqb_spec (zlen us) (ndim s)) as [El|El]; cbn [andb]; [|now rewrite andb_false_r].
-  destruct (in_range (ndim s) n) eqn:En; cbn [andb]; [|now rewrite andb_false_r].
+  apply decide_by. rewrite pre_mttkrp_split. unfold guard_ktensor_mttkrp, guard_mttkrp_factors. cbv zeta. okb.
+  destruct (Z.eqb_spec (zlen us) (ndim s)) as [El|El]; bsimpl; [|reflexivity].
+  destruct (in_range (ndim s) n) eqn:En; bsimpl; [|reflexivity].
   rewrite (idx_ok_mttkrp (ndim s) us n El En).
-  destruct (Z.leb_spec 2 (ndim s)) as [H2|H2]; cbn [andb]; [|reflexivity].
-  assert (Hall : forall u, In u us -> cols u <> 1).
-  { intros u Hu. rewrite forallb_forall in Hc. specialize (Hc u Hu). apply negb_true_iff, Z.eqb_neq in Hc. exact Hc. }
-  apply kw_chain_exact.
-  - unfold mttkrp_R, shp2_d. apply Hall, znth_In. destruct (n =? 0); lia.
-  - intros [i u] Hin. cbn [snd]. apply Hall. eapply in_combine_r; eauto.
+  destruct (mttkrp_cols_ok (ndim s) us n) eqn:B; bsimpl; [|reflexivity].
+  unfold mttkrp_cols_ok in B. rewrite (kw_chain_cols_eq s n _ _ B). reflexivity.
 Qed.
 
 (* a sum of a dense and a Kruskal part: the dense part already compares the column counts, so the sum is exact *)
 Theorem sumtensor_mttkrp_decides s us n : guard_sumtensor_mttkrp s us n = decide (pre_mttkrp s us n).
 Proof.
-  unfold guard_sumtensor_mttkrp. rewrite tensor_mttkrp_decides.
-  destruct (pre_mttkrp s us n) eqn:P; [|reflexivity]. cbn [decide andthen].
-  unfold pre_mttkrp in P. rewrite !andb_true_iff in P. destruct P as [[[H2 Hl] Hn] Hf].
-  apply Z.eqb_eq in Hl. rewrite (res_unit_decide (guard_ktensor_mttkrp s us n)). change (Ok tt) with (decide true). f_equal.
-  unfold guard_ktensor_mttkrp, guard_mttkrp_factors. okb. rewrite Hl, Z.eqb_refl, Hn.
-  rewrite <- Hl at 1. rewrite (idx_ok_mttkrp (ndim s) us n Hl Hn), H2. cbn [andb].
-  rewrite kw_chain_accepts; [reflexivity|exact Hf].
+  unfold guard_sumtensor_mttkrp. rewrite tensor_mttkrp_decides, ktensor_mttkrp_decides.
+  destruct (pre_mttkrp s us n); reflexivity.
 Qed.
 
 (* ---- ttensor.ttm / sptensor.ttm ---- *)
@@ -403,21 +388,23 @@ Lemma np_arange_len N : 0 <= N -> length (np_arange 0 N) = Z.to_nat N.
 Proof. intros. unfold np_arange. rewrite map_length, seq_length. f_equal. lia. Qed.
 
 Definition sptensor_mttkrp_stmt : Prop := forall s us n, guard_sptensor_mttkrp s us n = decide (pre_mttkrp s us n).
-(* columns beyond the first R are never looked at (C19-N09, open) *)
+(* C19-N09 repaired (the helper compares the column counts).  With matrices WITHOUT columns the loop over the columns never
+   runs and the row counts are not looked at (C19-N20, open) *)
 Theorem sptensor_mttkrp_refuted : ~ sptensor_mttkrp_stmt.
-Proof. intros H. specialize (H [2; 2; 2] [(2, 2); (2, 3); (2, 2)] 2). vm_compute in H. discriminate. Qed.
+Proof. intros H. specialize (H [2; 3; 4] [(2, 0); (5, 0); (4, 0)] 0). vm_compute in H. discriminate. Qed.
 
 Theorem sptensor_mttkrp_partial s us n :
-  0 < mttkrp_R us n -> forallb (fun u => cols u <=? mttkrp_R us n) us = true ->
+  0 < mttkrp_R us n ->
   guard_sptensor_mttkrp s us n = decide (pre_mttkrp s us n).
 Proof.
-  intros HR Hc. pose proof (ndim_nonneg s) as HN. apply decide_by.
-  unfold guard_sptensor_mttkrp, guard_mttkrp_factors, pre_mttkrp. fold (mttkrp_R us n).
+  intros HR. pose proof (ndim_nonneg s) as HN. apply decide_by. rewrite pre_mttkrp_split.
+  unfold guard_sptensor_mttkrp, guard_mttkrp_factors. cbv zeta.
   set (R := mttkrp_R us n) in *. okb.
-  destruct (Z.eqb_spec (zlen us) (ndim s)) as [El|El]; cbn [andb]; [|now rewrite andb_false_r].
-  destruct (in_range (ndim s) n) eqn:En; cbn [andb]; [|now rewrite andb_false_r].
+  destruct (Z.eqb_spec (zlen us) (ndim s)) as [El|El]; bsimpl; [|reflexivity].
+  destruct (in_range (ndim s) n) eqn:En; bsimpl; [|reflexivity].
   rewrite (idx_ok_mttkrp (ndim s) us n El En).
-  destruct (Z.leb_spec 2 (ndim s)) as [H2|H2]; cbn [andb]; [|reflexivity].
+  destruct (Z.leb_spec 2 (ndim s)) as [H2|H2]; bsimpl; [|reflexivity].
+  destruct (mttkrp_cols_ok (ndim s) us n) eqn:B; bsimpl; [|reflexivity].
   destruct (Z.leb_spec R 0); [lia|]. okb.
   rewrite ttv_checks_decides, is_ok_decide. unfold pre_ttv, pre_tensor_ttv.
   set (ius := combine (np_arange 0 (ndim s)) us).
@@ -426,7 +413,7 @@ Proof.
   { unfold ius. rewrite combine_length, np_arange_len by assumption. unfold zlen in El. lia. }
   assert (Hvl : zlen vl = ndim s) by (unfold vl, zlen; rewrite map_length, Hlen; lia).
   assert (Hin : 0 <= n < ndim s).
-  { unfold in_range in En. apply andb_true_iff in En as [A B]. apply Z.leb_le in A. apply Z.ltb_lt in B. lia. }
+  { unfold in_range in En. apply andb_true_iff in En as [A0 B0]. apply Z.leb_le in A0. apply Z.ltb_lt in B0. lia. }
   cbn [sel_modes pre_sel forallb]. rewrite En. cbn [andb]. rewrite Hvl.
   unfold pre_count. rewrite (Z.eqb_refl (ndim s)), orb_true_r. cbn [andb].
   unfold pre_mults, enum, others.
@@ -438,6 +425,10 @@ Proof.
     rewrite zmem_single, Z.eqb_refl in L. specialize (L eq_refl). lia. }
   transitivity (forallb (fun iu : Z * shp2 => (fst iu =? n) || (R <=? cols (snd iu))) ius &&
                 forallb (fun iu : Z * shp2 => (fst iu =? n) || (rows (snd iu) =? sz s (fst iu))) ius).
+  2:{ unfold mttkrp_rows_ok. fold ius. replace (forallb (fun iu : Z * shp2 => (fst iu =? n) || (R <=? cols (snd iu))) ius) with true; [reflexivity|].
+      symmetry. unfold mttkrp_cols_ok in B. fold R in B. fold ius in B. rewrite forallb_forall in B. apply forallb_forall.
+      intros [i u] Hiu. specialize (B _ Hiu). cbn [fst snd] in *. destruct (i =? n); [reflexivity|]. cbn [orb] in *.
+      apply Z.eqb_eq in B. rewrite B. apply Z.leb_refl. }
   - f_equal.
     rewrite (forallb_ext_in _ (fun km => (fun m => znth (-1) vl m =? sz s m) (snd km))).
     2:{ intros [k m] _. cbn [fst snd]. unfold mult_of. now rewrite Hsel. }
@@ -454,32 +445,19 @@ Proof.
       rewrite (nth_indep _ 0 (Z.of_nat 0)) by (rewrite map_length, seq_length; lia).
       rewrite map_nth, seq_nth by lia. lia. }
     rewrite Hnth. destruct (Z.eqb_spec m n); [contradiction|reflexivity].
-  - rewrite forallb_and. apply forallb_ext_in. intros [i u] Hiu. cbn [fst snd].
-    destruct (i =? n); cbn [orb andb]; [reflexivity|].
-    assert (Hu : cols u <=? R = true) by (rewrite forallb_forall in Hc; apply Hc; eapply in_combine_r; eauto).
-    apply Z.leb_le in Hu. rewrite andb_comm. f_equal.
-    destruct (Z.leb_spec R (cols u)), (Z.eqb_spec (cols u) R); try reflexivity; lia.
 Qed.
 
-(* ---- sptensor.extract ---- *)
-Definition sptensor_extract_stmt : Prop := forall s subs, guard_sptensor_extract s subs = decide (pre_subs s subs).
-Theorem sptensor_extract_refuted : ~ sptensor_extract_stmt.
-Proof. intros H. specialize (H [2; 3] [[0]; [1]]). vm_compute in H. discriminate. Qed.
-
-(* exact for rectangular subscript arrays that do not have exactly one column on a tensor of another order, and on tensors that are not 1-way *)
-Theorem sptensor_extract_partial s subs :
+(* ---- sptensor.extract (C19-N17 repaired: the column count is compared with the number of modes) ---- *)
+Theorem sptensor_extract_decides s subs :
   subs <> [] -> (forall row, In row subs -> zlen row = zlen (hd [] subs)) ->
-  zlen (hd [] subs) <> 1 -> ndim s <> 1 ->
   guard_sptensor_extract s subs = decide (pre_subs s subs).
 Proof.
-  intros Hne Hrect Hk HN. apply decide_by. unfold guard_sptensor_extract, pre_subs. okb.
-  destruct (Z.eqb_spec (zlen (hd [] subs)) 1); [contradiction|]. destruct (Z.eqb_spec (ndim s) 1); [contradiction|].
-  rewrite !orb_false_r.
+  intros Hne Hrect. apply decide_by. unfold guard_sptensor_extract, pre_subs. okb.
   destruct (Z.eqb_spec (zlen (hd [] subs)) (ndim s)) as [E|E]; cbn [andb].
-  - apply forallb_ext_in. intros row Hrow. unfold row_in_range_bcast, sub_ok. rewrite (Hrect row Hrow), E, Z.eqb_refl. reflexivity.
+  - apply forallb_ext_in. intros row Hrow. unfold sub_ok. rewrite (Hrect row Hrow), E, Z.eqb_refl. reflexivity.
   - symmetry. destruct subs as [|r0 rest]; [congruence|].
     cbn [forallb hd] in *. apply andb_false_iff. left. unfold sub_ok.
-      destruct (Z.eqb_spec (zlen r0) (ndim s)); [contradiction|reflexivity].
+    destruct (Z.eqb_spec (zlen r0) (ndim s)); [contradiction|reflexivity].
 Qed.
 
 (* ---- sptensor.from_aggregator ---- *)
@@ -543,16 +521,49 @@ Proof.
       destruct (Z.eqb_spec (zlen r0) (ndim s)); [contradiction|reflexivity].
 Qed.
 
-(* ---- gcp_opt ---- *)
-Definition gcp_opt_stmt : Prop := forall s rank init opt_ok, guard_gcp_opt s rank init opt_ok = decide (pre_gcp_opt s rank init opt_ok).
-(* an initial guess given as a list of matrices is not compared with the rank (C19-N19) *)
-Theorem gcp_opt_refuted : ~ gcp_opt_stmt.
-Proof. intros H. specialize (H [3; 2] 2 (InitList [(3, 3); (2, 3)]) true). vm_compute in H. discriminate. Qed.
-Theorem gcp_opt_partial s rank init opt_ok : (forall ms, init <> InitList ms) ->
-  guard_gcp_opt s rank init opt_ok = decide (pre_gcp_opt s rank init opt_ok).
+(* ---- gcp_opt (C19-N19 repaired: a list guess is turned into a Kruskal tensor and compared like one) ---- *)
+Lemma znth_map_in {A B} (f : A -> B) (d : A) (d' : B) l n : 0 <= n < zlen l -> znth d' (map f l) n = f (znth d l n).
 Proof.
-  intros Hl. apply decide_by. unfold guard_gcp_opt, pre_gcp_opt.
-  destruct init as [| | |ks R|ms]; okb; cbn [is_ok andb]; rewrite ?andb_true_r, ?andb_false_r; try reflexivity.
+  intros H. unfold znth. destruct (Z.ltb_spec n 0); [lia|]. destruct (Z.ltb_spec n 0); [lia|].
+  apply nth_map_lt. unfold zlen in H. lia.
+Qed.
+
+Lemma sz_np_full N v n : 0 <= n < N -> sz (np_full N v) n = v.
+Proof.
+  intros H. unfold sz, znth, np_full. destruct (Z.ltb_spec n 0); [lia|]. destruct (Z.ltb_spec n 0); [lia|].
+  rewrite (nth_indep _ 0 v) by (rewrite repeat_length; lia). apply nth_repeat.
+Qed.
+
+Lemma gcp_list_fit s ms rank :
+  all_cols ms (cols (shp2_d ms 0)) && (shape_eqb (map rows ms) s && (cols (shp2_d ms 0) =? rank))
+  = (zlen ms =? ndim s) && (cols (shp2_d ms 0) =? rank) && factors_fit s ms (np_full (ndim s) rank) (np_arange 0 (ndim s)).
+Proof.
+  destruct (Z.eqb_spec (cols (shp2_d ms 0)) rank) as [ER|ER]; bsimpl; [|reflexivity].
+  rewrite ER. apply eq_iff_eq_true. rewrite !andb_true_iff. unfold all_cols, factors_fit.
+  rewrite !forallb_forall, shape_eqb_eq, Z.eqb_eq. split.
+  - intros [Hc Hs].
+    assert (Hl : zlen ms = ndim s) by (rewrite <- Hs; unfold ndim, zlen; now rewrite map_length).
+    split; [exact Hl|]. intros n Hn. apply in_np_arange in Hn. apply andb_true_iff. split.
+    + apply Z.eqb_eq. rewrite <- Hs. unfold sz, shp2_d. rewrite (znth_map_in rows (0, 0)) by lia. reflexivity.
+    + rewrite sz_np_full by lia. apply Hc. apply znth_In. lia.
+  - intros [Hl Hf]. split.
+    + intros m Hm. apply (In_nth _ _ (0, 0)) in Hm as (k & Hk & Hm). subst m.
+      specialize (Hf (Z.of_nat k)). rewrite in_np_arange in Hf.
+      assert (Hr : 0 <= Z.of_nat k < ndim s) by (rewrite <- Hl; unfold zlen; split; [lia|apply Nat2Z.inj_lt; exact Hk]). specialize (Hf Hr).
+      apply andb_true_iff in Hf as [_ Hf]. rewrite sz_np_full in Hf by exact Hr. unfold shp2_d in Hf. rewrite znth_nat in Hf. exact Hf.
+    + apply sz_ext.
+      * unfold zlen. rewrite map_length. exact Hl.
+      * intros n Hn. assert (Hn' : 0 <= n < zlen ms) by (unfold zlen in *; rewrite map_length in Hn; exact Hn).
+        specialize (Hf n). rewrite in_np_arange in Hf. specialize (Hf ltac:(lia)).
+        apply andb_true_iff in Hf as [Hf _]. apply Z.eqb_eq in Hf. unfold shp2_d in Hf.
+        unfold sz at 1. rewrite (znth_map_in rows (0, 0)) by exact Hn'. exact Hf.
+Qed.
+
+Theorem gcp_opt_decides s rank init opt_ok : guard_gcp_opt s rank init opt_ok = decide (pre_gcp_opt s rank init opt_ok).
+Proof.
+  apply decide_by. unfold guard_gcp_opt, pre_gcp_opt.
+  destruct init as [| | |ks R|ms]; okb; cbn [is_ok andb]; bsimpl; try reflexivity.
   - destruct (shape_eqb ks s && (R =? rank)), (0 <? rank), opt_ok; reflexivity.
-  - exfalso. eapply Hl. reflexivity.
+  - unfold guard_ktensor_ctor. okb. cbn [is_ok]. bsimpl. rewrite <- andb_assoc, <- gcp_list_fit.
+    destruct (all_cols ms (cols (shp2_d ms 0))), (shape_eqb (map rows ms) s && (cols (shp2_d ms 0) =? rank)), (0 <? rank), opt_ok; reflexivity.
 Qed.
